@@ -37,7 +37,8 @@ def joinWith (sep : Text) : List Text → Text
   | [x] => x
   | x :: y :: r => x ++ sep ++ joinWith sep (y :: r)
 
-/-- `to_phylip(square)` -/
+/-- `to_phylip(square)` (repaired: one line for the size, one per taxon, each terminated by a newline — an
+    empty matrix has no row line) -/
 def toPhylip (m : Mat L) (square : Bool) : Text :=
   let n := m.taxa.length
   let rows := (m.taxa.zipIdx).map (fun (name, i) =>
@@ -46,7 +47,7 @@ def toPhylip (m : Mat L) (square : Bool) : Text :=
       cd.showL (if i = j then cd.zero else m.v.getD (cell i j) default))
     let rowS := joinWith [' ', ' '] cells
     if rowS.isEmpty then name.toList else name.toList ++ [' ', ' ', ' ', ' '] ++ rowS)
-  (toString n).toList ++ ['\n'] ++ joinWith ['\n'] rows ++ ['\n']
+  joinWith ['\n'] ((toString n).toList :: rows) ++ ['\n']
 
 /-- `read_phylip_row`: name, then at most `limit` parsed distances (fields beyond the limit are not parsed) -/
 def readRow (row : Text) (limit : Nat) : PRes (Text × List L) :=
